@@ -1,13 +1,18 @@
 """C10 — TCP connection racing resolves exactly once and leaks no sockets.
 
 Part "connector" drives ``tornado.tcpclient._Connector`` directly (as tornado/test/tcpclient_test.py does) on the
-virtual loop: addrinfo list of 1-4 entries over two families, each address optionally failing synchronously
+virtual loop: addrinfo list of 1-4 entries over two families - entries may repeat the same (family, address),
+adjacent or not, as resolvers do - each address optionally failing synchronously
 (its connect future is already failed when returned), happy-eyeballs timeout 0.3/1.0, optional connect
 timeout, and an op-list schedule: ok(i) / fail(i) complete the i-th in-flight attempt, advance(dt) moves the
 clock (firing the happy-eyeballs timer and the connect timeout in deadline order).  A flag decides whether
 ``close()`` on an in-flight fake stream fails its connect future at once (what IOStream does) or leaves it to
 the schedule (late arrivals).  Part "connector_enum" enumerates every schedule of <= 4 (quick) / 5 (thorough)
-events over all address lists of <= 2 (quick) / 3 (thorough) entries.  After every op, at quiescence:
+events over all address lists of <= 2 (quick) / 3 (thorough) entries up to renaming, duplicated entries included
+(quick additionally: every 3-entry list with a duplicate, schedules <= 3 events).
+Duplicated entries: the statement fixes only that the connect settles, so an implementation may attempt a duplicate
+again or drop it; the oracle allows an "all failed" error once every DISTINCT address was attempted and every attempt
+failed, requires it once additionally nothing is in flight, and never allows more attempts than listings.  After every op, at quiescence:
   * the connector future completed at most once (done-callback counter; no exception logged from a callback);
   * first success delivered while unresolved => the future holds exactly (af, addr, that stream), at once;
   * an error result is TimeoutError only at/after the connect deadline, otherwise it is the exception of the most
@@ -26,7 +31,7 @@ awaitable completes (result or exception) once all attempts are settled and all 
 never fails with a non-OSError/TimeoutError/StreamClosedError exception (crash); a returned stream is an open one whose
 connect succeeded; every other fake socket/stream is closed.
 
-Open findings on the current tree (known_findings.d/C10.json, findings_inbox/C10-*.md), both in part "tcpclient":
+Findings (known_findings.d/C10.json, findings_inbox/C10-*.md; since repaired in /repo), both in part "tcpclient":
 socket()/bind() raising inside the connector's callback leaves connect() pending forever; the `except OSError` branch
 of _create_stream returns an unbound `stream` (UnboundLocalError, socket leaked).  Both disappear with the proposed
 patches.  The _Connector state machine itself held on everything explored.
@@ -45,6 +50,10 @@ Sensitivity (quick tier, seed 1, scratch copies, one mutant of tornado/tcpclient
   M6 on_connect_timeout: close_streams() removed                             -> caught  C10.loser_not_closed_at_resolution
   M7 on_timeout: starts the secondary family even after resolution           -> caught  C10.attempt_started_after_resolution
   M8 on_connect_done: failure after resolution still retries                 -> caught  C10.attempt_started_after_resolution
+  M9 split() de-duplicates (`dict.fromkeys(addrinfo)`) while `remaining = len(addrinfo)`  -> caught  C10.all_failed_but_unresolved
+     (minimal: [a, a], every attempt fails).  Found by independent mutation testing; the first version of this check
+     never listed an address twice, so duplicate entries were added to the generators and to the enumeration.
+     Soundness control: split() de-duplicating AND remaining = len(dict.fromkeys(addrinfo)) stays quiet.
 """
 import asyncio
 import errno
@@ -67,10 +76,12 @@ from vlib.httpharness import LogCapture
 PROPERTY = "C10"
 READY = True
 RULE = (
-    "connector: Hypothesis draws addrinfo (1-4 entries over 2 families, per-address synchronous-failure flag), "
+    "connector: Hypothesis draws addrinfo (1-4 entries over 2 families x 3 addresses each, so entries repeat; "
+    "per-address synchronous-failure flag), "
     "happy-eyeballs timeout, optional connect timeout, close-fails-pending flag and an op list (<=14 ops: ok(i), "
     "fail(i), advance(dt)); connector_enum: all event sequences of length <=4 (quick) / <=5 (thorough) over 6 events "
-    "for every address list of <=2 (quick) / <=3 (thorough) entries x connect-timeout on/off; tcpclient: Hypothesis "
+    "for every address list pattern (incl. duplicated entries) of <=2 (quick; plus 3-entry lists with a duplicate at "
+    "length <=3) / <=3 (thorough) entries x connect-timeout on/off; tcpclient: Hypothesis "
     "draws the same plus per-address creation faults (socket()/bind()/IOStream() raising) and resolver behaviour. "
     "non-trivial = >=2 addresses and >=1 failure or timer event before resolution; distinct = SHA-1 of the case"
 )
@@ -101,7 +112,9 @@ conn_op_s = st.one_of(
     st.tuples(st.just("fail"), st.integers(0, 3)),
     st.tuples(st.just("advance"), st.sampled_from([0.1, 0.2, 0.3, 0.5, 1.0, 3.0])),
 )
-addr_s = st.tuples(st.sampled_from([4, 6]), st.sampled_from([False, False, False, True]))
+# (family, fails synchronously, slot): two entries with the same family and slot are the SAME address listed twice
+# (resolvers do return duplicates, e.g. one per socktype/protocol or from several sources)
+addr_s = st.tuples(st.sampled_from([4, 6]), st.sampled_from([False, False, False, True]), st.integers(0, 2))
 conn_case_s = st.fixed_dictionaries({
     "addrs": st.lists(addr_s, min_size=1, max_size=4),
     "he": st.sampled_from([0.3, 0.3, 1.0]),
@@ -133,8 +146,16 @@ class FakeStream:
 
 
 def run_connector(ctx, case):
-    addrs = [(FAM[f], "a%d" % i) for i, (f, _) in enumerate(case["addrs"])]
-    sync_fail = {"a%d" % i: s for i, (_, s) in enumerate(case["addrs"])}
+    entries = [(e[0], e[1], e[2] if len(e) > 2 else i) for i, e in enumerate(case["addrs"])]
+    addrs = [(FAM[f], "a%d_%d" % (f, slot)) for f, _, slot in entries]
+    sync_fail = {}
+    for f, sf, slot in entries:
+        sync_fail.setdefault("a%d_%d" % (f, slot), sf)  # one behaviour per address: the first listing decides
+    multiplicity = {}
+    for _, name in addrs:
+        multiplicity[name] = multiplicity.get(name, 0) + 1
+    distinct = set(multiplicity)
+    has_dup = len(distinct) < len(addrs)
     fails = []
     info = {"events_before_resolution": 0, "labels": set()}
 
@@ -151,8 +172,9 @@ def run_connector(ctx, case):
             s = FakeStream(addr, af, case["close_fails"])
             if holder.get("conn") is not None and holder["conn"].future.done():
                 fail("C10.attempt_started_after_resolution", {"addr": addr})
-            if any(a.name == addr for a in attempts):
-                fail("C10.address_attempted_twice", {"addr": addr})
+            # a listed entry is attempted once; a duplicated entry may be attempted again or be de-duplicated
+            if sum(1 for a in attempts if a.name == addr) >= multiplicity.get(addr, 0):
+                fail("C10.address_attempted_more_often_than_listed", {"addr": addr})
             attempts.append(s)
             if sync_fail[addr]:
                 s.state = "failed"
@@ -185,7 +207,12 @@ def run_connector(ctx, case):
                 fail("C10.resolved_more_than_once", {"count": done_count[0]})
             if now >= he_at:
                 state["he_fired"] = True
-            all_failed = len(attempts) == len(addrs) and all(a.state in ("failed",) for a in attempts)
+            # Duplicated entries: the statement only fixes that the connect settles - an implementation may try a
+            # duplicate again or drop it.  So an error is *allowed* once every distinct address was attempted and every
+            # attempt failed, and it is *required* once nothing is left that could still be tried or complete.
+            every_attempt_failed = bool(attempts) and all(a.state == "failed" for a in attempts)
+            untried_distinct = distinct - {a.name for a in attempts}
+            all_failed = every_attempt_failed and not untried_distinct and not fl
             if fut.done():
                 if not state["resolved_seen"]:
                     state["resolved_seen"] = True
@@ -225,7 +252,7 @@ def run_connector(ctx, case):
                 if all_failed:
                     fail("C10.all_failed_but_unresolved", {"step": step, "attempts": [repr(a) for a in attempts]})
                 # no stall: something must still be able to resolve the future
-                untried = len(attempts) < len(addrs)
+                untried = bool(untried_distinct)
                 he_pending = not state["he_fired"] and not state["he_consumed"]
                 if not fl and not (he_pending and untried) and deadline is None:
                     fail("C10.stalled", {"step": step, "attempts": [repr(a) for a in attempts], "addrs": case["addrs"],
@@ -321,7 +348,13 @@ def run_connector(ctx, case):
         ctx.fail("C10.exception_in_callback", dict(detail_base, logs=[b[2][:300] for b in bad[:2]]))
     labels = set(info["labels"])
     labels.add("addrs_%d" % len(addrs))
-    if len({f for f, _ in case["addrs"]}) == 2:
+    if has_dup:
+        labels.add("duplicate_entry")
+        if any(addrs[i] == addrs[i + 1] for i in range(len(addrs) - 1)):
+            labels.add("duplicate_adjacent")
+        if any(addrs[i] == addrs[j] for i in range(len(addrs)) for j in range(i + 2, len(addrs))):
+            labels.add("duplicate_non_adjacent")
+    if len({e[0] for e in case["addrs"]}) == 2:
         labels.add("two_families")
     if case["ct"] is not None:
         labels.add("with_connect_timeout")
@@ -332,19 +365,37 @@ def run_connector(ctx, case):
 ENUM_EVENTS = [("ok", 0), ("ok", 1), ("fail", 0), ("fail", 1), ("advance", 0.3), ("advance", 1.0)]
 
 
-def enum_cases(max_addrs, max_len):
-    for n in range(1, max_addrs + 1):
-        for fams in itertools.product([4, 6], repeat=n):
-            if fams[0] == 6:
-                continue  # symmetric to the list with the families swapped
-            for ct in (None, 1.0):
-                for close_fails in (True, False):
-                    # with one address ok(1)/fail(1) denote the same attempt as ok(0)/fail(0)
-                    events = ENUM_EVENTS if n > 1 else [e for e in ENUM_EVENTS if e[0] == "advance" or e[1] == 0]
-                    for L in range(0, max_len + 1):
-                        for seq in itertools.product(events, repeat=L):
-                            yield {"addrs": [(f, False) for f in fams], "he": 0.3, "ct": ct, "close_fails": close_fails,
-                                   "ops": list(seq)}
+def addr_patterns(n):
+    """All address lists of n entries over two families up to renaming: first entry is IPv4, and within a family the
+    slots form a restricted-growth string - so every pattern of duplicated (adjacent / non-adjacent) entries occurs once."""
+    for fams in itertools.product([4, 6], repeat=n):
+        if fams[0] == 6:
+            continue  # symmetric to the list with the families swapped
+        def extend(prefix):
+            i = len(prefix)
+            if i == n:
+                yield list(prefix)
+                return
+            used = [s for (f, s) in prefix if f == fams[i]]
+            for slot in range(0, (max(used) + 1 if used else 0) + 1):
+                yield from extend(prefix + [(fams[i], slot)])
+        yield from extend([])
+
+
+def enum_cases(max_addrs, max_len, extra_dup_len=None):
+    plans = [(n, pat, max_len) for n in range(1, max_addrs + 1) for pat in addr_patterns(n)]
+    if extra_dup_len is not None:
+        # quick tier: 3-entry lists are only enumerated where an entry is duplicated, with shorter schedules
+        plans += [(3, pat, extra_dup_len) for pat in addr_patterns(3) if len(set(pat)) < 3]
+    for n, pat, ml in plans:
+        for ct in (None, 1.0):
+            for close_fails in (True, False):
+                # with one address ok(1)/fail(1) denote the same attempt as ok(0)/fail(0)
+                events = ENUM_EVENTS if n > 1 else [e for e in ENUM_EVENTS if e[0] == "advance" or e[1] == 0]
+                for L in range(0, ml + 1):
+                    for seq in itertools.product(events, repeat=L):
+                        yield {"addrs": [(f, False, slot) for f, slot in pat], "he": 0.3, "ct": ct,
+                               "close_fails": close_fails, "ops": list(seq)}
 
 
 # =========================================================================== part 2: TCPClient.connect
@@ -356,8 +407,19 @@ tcp_case_s = st.fixed_dictionaries({
     "source_ip": st.booleans(),
     "source_port": st.booleans(),
     "resolver": st.sampled_from(["now", "now", "now", "delayed", "fail"]),
+    # optionally list entry i a second time, inserted at position pos (adjacent or not)
+    "dup": st.one_of(st.none(), st.none(), st.tuples(st.integers(0, 3), st.integers(0, 4))),
     "ops": st.lists(st.one_of(conn_op_s, st.tuples(st.just("resolve"), st.just(0))), max_size=12),
 })
+
+
+def tcp_entries(case):
+    """(family, creation script, identity) per listed entry; a duplicated entry repeats identity and script."""
+    ent = [(f, sc, i) for i, (f, sc) in enumerate(case["addrs"])]
+    dup = case.get("dup")
+    if dup is not None:
+        ent.insert(dup[1] % (len(ent) + 1), ent[dup[0] % len(ent)])
+    return ent
 
 
 class FakeSock:
@@ -423,7 +485,8 @@ class World:
         self.case = case
         self.socks = []
         self.streams = []
-        self.per_family = {AF4: [s for f, s in case["addrs"] if f == 4], AF6: [s for f, s in case["addrs"] if f == 6]}
+        ent = tcp_entries(case)
+        self.per_family = {AF4: [s for f, s, _ in ent if f == 4], AF6: [s for f, s, _ in ent if f == 6]}
         self.calls = {AF4: 0, AF6: 0}
         self.socket_calls = 0
         self.raise_in_callback = False
@@ -480,7 +543,7 @@ class FakeResolver:
 
 def run_tcpclient(ctx, case):
     world = World(case)
-    addrinfo = [(FAM[f], ("10.0.0.%d" % i if f == 4 else "fd00::%d" % i, 80)) for i, (f, _) in enumerate(case["addrs"])]
+    addrinfo = [(FAM[f], ("10.0.0.%d" % i if f == 4 else "fd00::%d" % i, 80)) for f, _, i in tcp_entries(case)]
     fails = []
     info = {"labels": set(), "events": 0}
 
@@ -607,6 +670,8 @@ def run_tcpclient(ctx, case):
     if world.ctor_raised:
         labels.add("tcp_ctor_raised")
     labels.add("tcp_resolver_" + case["resolver"])
+    if case.get("dup") is not None:
+        labels.add("tcp_duplicate_entry")
     ctx.note(case, labels, nontrivial=len(addrinfo) >= 2 and info["events"] >= 1)
 
 
@@ -615,6 +680,10 @@ PARTS = {"connector": run_connector, "connector_enum": run_connector, "tcpclient
 
 def main(ctx):
     ctx.run_replays(PARTS)
-    ctx.enumerate(enum_cases(3 if ctx.thorough else 2, 5 if ctx.thorough else 4), run_connector, name="connector_enum")
+    if ctx.thorough:
+        cases = enum_cases(3, 5)
+    else:
+        cases = enum_cases(2, 4, extra_dup_len=3)
+    ctx.enumerate(cases, run_connector, name="connector_enum")
     ctx.explore(conn_case_s, run_connector, ctx.n(1200, 150000), name="connector")
     ctx.explore(tcp_case_s, run_tcpclient, ctx.n(800, 60000), name="tcpclient")
